@@ -59,7 +59,11 @@ CHECKS["C04"] = dict(cat="other", tech="SMT (z3, uninterpreted exp with congruen
 CHECKS["C05"] = dict(cat="other", tech="symbolic encoding of the IR of jax.grad(loss through integrate) compared per trainable scalar with an own symbolic derivative of the encoded forward loss (DAG identity, congruence descent, z3); gradient DAGs across checkpoint layouts; definedness obligations",
    text="For small modules (1-2 compartments x 2 steps with HH, 3 compartments x 1 step with branch-level groups of unequal size, a 2-cell network) the gradient IR is proved equal, for all parameter values away from kinks, to the symbolic derivative of the forward DAG for channel/synapse parameters, geometry, capacitance, initial states, stimulus amplitude and data_set values; checkpointed gradients are compared with the plain one; the gradient's definedness is solved for on C03's range. Where z3 cannot decide (gradients w.r.t. geometry through branch points) the instance is inconclusive and a finite-difference replay is run as a side-check.",
    note="own differentiation rules are the oracle; exact real arithmetic; kinks excluded; longer simulations and jax.sparse ground truth outside", ref="6 C05")
-NA = {}
+NA = {
+ "C11": "not applicable to solver-based checking: the whole statement is about which integer row labels a chain of pandas selections (isin / groupby-rank / loc) yields; no floating-point quantity exists for a solver to quantify over, symbolic indices are realised at the pandas/numpy C boundary (CrossHair), and an SMT rendering would be a hand-written model of pandas, not the real code (DESIGN 7). Write-confinement through views is exercised for the views enumerated by C10.",
+ "C18": "not applicable to solver-based checking: an object-graph property (pickle / deepcopy round trips over construction histories); once the copied tables are equal the traced IRs are trivially the same node, so a solver decides nothing that a byte comparison does not (DESIGN 7).",
+ "C20": "not applicable to solver-based checking: inputs are population sizes, boolean matrices, p and random draws consumed by pandas groupby.sample / np.random; the code cannot run on symbolic draws and the index-layout arithmetic could only be checked on a transcription of three numpy lines (DESIGN 7). The defects F7/F8 reproduce concretely but are outside this technique.",
+}
 checks = []
 for pid, c in CHECKS.items():
     checks.append({
@@ -85,6 +89,8 @@ m = {
            "source_commits": [], "add_only": True},
  "engines": [
    {"name": "E1-ir2smt", "path": "vf/", "serves_properties": sorted(CHECKS), "kind_free_text": IR},
+   {"name": "E2-crosshair", "path": "vf/ch_swc.py", "serves_properties": ["C16"], "kind_free_text": "CrossHair 0.0.110 (z3-backed symbolic execution of the real Python code) from the offline wheelhouse in an overlay venv; symbolic SWC type column per enumerated parent vector"},
+   {"name": "E3-concolic-numpy", "path": "vf/checks/c16.py", "serves_properties": ["C16"], "kind_free_text": "the real numpy code executed on dtype=object arrays of hash-consed DAG nodes with concolic comparisons (DART path coverage by z3), one z3 query per path"},
  ],
  "checks": checks,
  "notes": "Solver-based checking of the real code (DESIGN.md). fix: commits in /repo are listed in known_findings.json under 'fixed'.",
